@@ -213,3 +213,42 @@ Proof.
   - unfold D.is_nan, fis_nan, D.of_Z. destruct (of_Z 53 1024 Hp64 He64 n); try reflexivity; discriminate Fn.
   - exact Fn.
 Qed.
+
+(* read_point: a coordinate text accepted under the +-MAX_COORDINATE_VALUE limit truncates to
+   an integer within that limit (f64 analogue of coord_trunc_bound) *)
+Lemma coord64_B2R : B2R (D.of_Z 131072) = IZR 131072.
+Proof. apply (proj1 (of_Z_exact 53 1024 Hp64 He64 131072 ltac:(cbn; lia))). Qed.
+
+Lemma coord64_trunc_bound (v : F64) :
+  is_finite v = true ->
+  D.lt v (D.neg (D.of_Z 131072)) = false -> D.gt v (D.of_Z 131072) = false ->
+  - 131072 <= f64_as_i32 v <= 131072.
+Proof.
+  intros Fv El Eg.
+  assert (Fl : is_finite (D.of_Z 131072) = true) by (apply D_of_Z_finite; cbn; lia).
+  unfold D.lt, D.gt, D.neg, flt, fgt, fneg in El, Eg.
+  rewrite Bltb_correct in El, Eg by (try assumption; try (rewrite is_finite_Bopp); exact Fl).
+  rewrite B2R_Bopp, coord64_B2R in El. rewrite coord64_B2R in Eg.
+  destruct (Rlt_bool_spec (B2R v) (- IZR 131072)) as [|Hlo]; [discriminate|].
+  destruct (Rlt_bool_spec (IZR 131072) (B2R v)) as [|Hhi]; [discriminate|].
+  assert (Ht : Btrunc v = Ztrunc (B2R v)).
+  { apply eq_IZR. rewrite Btrunc_correct, round_FIX_IZR; [reflexivity|exact He64]. }
+  assert (Hb : - 131072 <= Btrunc v <= 131072).
+  { rewrite Ht. split.
+    - rewrite <- (Ztrunc_IZR (- 131072)). apply Ztrunc_le. exact Hlo.
+    - rewrite <- (Ztrunc_IZR 131072). apply Ztrunc_le. exact Hhi. }
+  unfold f64_as_i32, D.to_int_sat, to_int_sat, i32_min, i32_max.
+  change (2 ^ 31) with 2147483648.
+  destruct v as [sv|sv| |sv mv ev Hv]; try discriminate; cbv zeta;
+    match goal with |- context [Btrunc ?x] => set (t := Btrunc x) in * end;
+    repeat match goal with |- context [?a <? ?b] => replace (a <? b) with false by lia end;
+    lia.
+Qed.
+
+Lemma cross_zero_int a b : Z.abs a < 2 ^ 24 -> Z.abs b < 2 ^ 24 ->
+  S.lt (S.abs (S.sub (S.mul (S.of_Z 0) (S.of_Z a)) (S.mul (S.of_Z 0) (S.of_Z b)))) S.eps = true.
+Proof.
+  intros Ha Hb.
+  destruct (of_Z_exact 24 128 Hp32 He32 0 ltac:(cbn; lia)) as [R0 F0].
+  apply cross_zero32; try assumption; try (apply S_of_Z_finite; assumption).
+Qed.
